@@ -28,21 +28,43 @@ func (d *Pegnetd) GetPegNetRateAverages(ctx context.Context, height uint32) (Avg
 	if ratesOverPeriod == nil {           //                    If no map exists yet
 		ratesOverPeriod = map[fat2.PTicker][]uint64{} //          create one.
 	}
+	sampleHeights := d.lastAveragesDataHeights //               The block height each sample was taken at
+	if sampleHeights == nil {
+		sampleHeights = map[fat2.PTicker][]uint32{}
+	}
 
 	defer func() { //                                           Always set up the cache when exiting the routine
-		d.LastAveragesData = ratesOverPeriod //                   Save the data we used to create averages
-		d.LastAveragesHeight = height        //                   Save the height of this data
-		d.LastAverages = averages            //                   Save the averages we computed
+		d.LastAveragesData = ratesOverPeriod      //            Save the data we used to create averages
+		d.lastAveragesDataHeights = sampleHeights //            and the heights it was taken at
+		d.LastAveragesHeight = height             //            Save the height of this data
+		d.LastAverages = averages                 //            Save the averages we computed
 	}()
 
 	// collectRatesAtHeight
 	// This routine collects all the data used to compute an average.  If any data is missing, then
 	// that data is represented by a zero.
 	collectRatesAtHeight := func(h uint32) {
-		for k := range ratesOverPeriod { //                   Make sure there is room for a new height
-			for len(ratesOverPeriod[k]) >= int(AveragePeriod) { //  If at the limit or above,
+		// The averaging window is the block range [h-AveragePeriod+1, h], exactly as in the
+		// full reload below. Blocks without rates inside the window contribute no sample, so
+		// the window must be trimmed by block height, not by the number of samples held:
+		// otherwise a node that kept its cache averages over an older sample than a node
+		// that was restarted and reloaded the window.
+		firstInWindow := int64(h) - int64(AveragePeriod) + 1
+		for k := range ratesOverPeriod {
+			for len(ratesOverPeriod[k]) > 0 && len(sampleHeights[k]) == len(ratesOverPeriod[k]) &&
+				int64(sampleHeights[k][0]) < firstInWindow {
 				copy(ratesOverPeriod[k], ratesOverPeriod[k][1:])                    // Shift data down 1 element
 				ratesOverPeriod[k] = ratesOverPeriod[k][:len(ratesOverPeriod[k])-1] //   And drop off the last value
+				copy(sampleHeights[k], sampleHeights[k][1:])
+				sampleHeights[k] = sampleHeights[k][:len(sampleHeights[k])-1]
+			}
+			for len(ratesOverPeriod[k]) >= int(AveragePeriod) { //  Never hold more than a full period
+				copy(ratesOverPeriod[k], ratesOverPeriod[k][1:])
+				ratesOverPeriod[k] = ratesOverPeriod[k][:len(ratesOverPeriod[k])-1]
+				if len(sampleHeights[k]) > 0 {
+					copy(sampleHeights[k], sampleHeights[k][1:])
+					sampleHeights[k] = sampleHeights[k][:len(sampleHeights[k])-1]
+				}
 			}
 		}
 
@@ -54,6 +76,7 @@ func (d *Pegnetd) GetPegNetRateAverages(ctx context.Context, height uint32) (Avg
 					ratesOverPeriod[k] = []uint64{} //              Allocate the slice
 				}
 				ratesOverPeriod[k] = append(ratesOverPeriod[k], v) // Add the rates we find
+				sampleHeights[k] = append(sampleHeights[k], h)     // and remember where they come from
 			}
 		}
 	}
@@ -66,6 +89,7 @@ func (d *Pegnetd) GetPegNetRateAverages(ctx context.Context, height uint32) (Avg
 			if v != nil {
 				ratesOverPeriod[k] = ratesOverPeriod[k][:0]
 			}
+			sampleHeights[k] = sampleHeights[k][:0]
 		}
 		startHeightS := int64(height) - (int64(AveragePeriod)) + 1 // startHeight is AveragePeriod before height+1
 		//                                                            (add 1 so the block at height is included)
